@@ -7,13 +7,17 @@ use std::collections::{BTreeMap, HashSet};
 use std::panic::{catch_unwind, AssertUnwindSafe};
 use std::path::{Path, PathBuf};
 
+pub const QUICK_SCALE: u64 = 6;
+
 #[derive(Clone, Copy, PartialEq, Eq, Debug)]
 pub enum Tier { Quick, Thorough }
 impl Tier {
     pub fn name(self) -> &'static str { match self { Tier::Quick => "quick", Tier::Thorough => "thorough" } }
     pub fn parse(s: &str) -> Option<Tier> { match s { "quick" => Some(Tier::Quick), "thorough" => Some(Tier::Thorough), _ => None } }
     /// pick a size by tier
-    pub fn pick(self, q: u64, t: u64) -> u64 { match self { Tier::Quick => q, Tier::Thorough => t } }
+    /// workload size by tier; the quick size is multiplied by QUICK_SCALE (the base numbers give a ~1 s smoke run)
+    pub fn pick(self, q: u64, t: u64) -> u64 { match self { Tier::Quick => (q * QUICK_SCALE).min(t.max(q)), Tier::Thorough => t } }
+    pub fn pick_exact(self, q: u64, t: u64) -> u64 { match self { Tier::Quick => q, Tier::Thorough => t } }
 }
 
 #[derive(Clone, Debug)]
